@@ -636,3 +636,39 @@ def shrink_candidates(prog):
                 p = copy.deepcopy(prog)
                 _stmt_lists(p)[li][si]["ctx"] = None
                 yield p
+
+
+def is_flat(prog) -> bool:
+    """Membership in the class C13 quantifies over."""
+    plain = ("op", "assign", "with", "msgswitch")
+
+    def plain_block(stmts):
+        return all(s["k"] in plain for s in stmts)
+
+    for r in prog["routines"]:
+        if r.get("alias"):
+            return False
+        body = r["body"]
+        if not body or not (body[-1]["k"] == "ctl" and body[-1]["v"] in ("return", "end", "hold")):
+            return False
+        for s in body[:-1]:
+            k = s["k"]
+            if k in plain:
+                continue
+            if k == "if":
+                blocks = [s["body"]] + [e["body"] for e in s.get("elifs", [])] + ([s["else"]] if s.get("else") is not None else [])
+                if not all(plain_block(b) for b in blocks):
+                    return False
+            elif k == "switch":
+                cases = s["cases"]
+                for i, c in enumerate(cases):
+                    b = c["body"]
+                    if not b:
+                        if i == len(cases) - 1:
+                            return False
+                        continue
+                    if not (b[-1]["k"] == "ctl" and b[-1]["v"] == "break") or not plain_block(b[:-1]):
+                        return False
+            else:
+                return False
+    return True
